@@ -536,7 +536,15 @@ def realise_iter(v):
     return v
 
 
+def alias_value(a):
+    """Aliases in specs are JSON: a tuple alias is written {"tuple": [...]}."""
+    if isinstance(a, dict) and "tuple" in a:
+        return tuple(alias_value(x) for x in a["tuple"])
+    return a
+
+
 def _hashable(v):
+    v = alias_value(v)
     hash(v)
     return v
 
